@@ -536,8 +536,16 @@ func caseRead(r *mon.Rec, idx int, gray bool) {
 	var addrs []net.Addr // the addresses as returned: read again after all later reads (the caller keeps them)
 	pan, val, st := mon.Guard(func() {
 		c := nclient4.NewBroadcastUDPConn(fc, bound)
+		// the read buffer is the caller's at every call: one of 1500 octets throughout, or buffers of changing sizes
+		// (none smaller than the largest payload of the script)
+		sizes := []int{1500, 1501, 2048, 1500, 4096, 1500, 65535, 3000}
+		so := rng.IntN(len(sizes))
+		vary := rng.IntN(3) == 0
 		buf := make([]byte, 1500)
 		for k := 0; k < len(frames)+nfaults+2; k++ {
+			if vary {
+				buf = make([]byte, sizes[(so+k)%len(sizes)])
+			}
 			n, addr, err := c.ReadFrom(buf)
 			if err != nil && nfaults > 0 && !errors.Is(err, errScript) && fc.calls < 4*(len(frames)+nfaults+2) {
 				passing++ // how a passing fault is reported (or retried) is not laid down; what arrives afterwards is
